@@ -22,6 +22,9 @@ func init() {
 		points: []string{"op", "commit.ts", "readTs.wait", "seq.leased"},
 		setup: func(x *schedExec) {
 			o := smallOpts(x.dir)
+			if x.j.Bool("no_conflict_detection", false) {
+				o.DetectConflicts = false // the lease transactions of different objects then no longer exclude each other
+			}
 			o.InMemory, o.Dir, o.ValueDir = true, "", ""
 			x.db = mustOpen(o)
 			st := &c30State{}
@@ -75,7 +78,7 @@ func init() {
 						return "", fmt.Sprintf("object %d returned %v: not strictly increasing", i, g), "sequence-not-increasing"
 					}
 					if o, dup := seen[v]; dup {
-						return "", fmt.Sprintf("number %d handed out twice (objects %d and %d); returned: %v, errors: %v", v, o, i, st.got, st.errs), "sequence-duplicate"
+						return "", fmt.Sprintf("number %d handed out twice (objects %d and %d); returned: %v, errors: %v", v, o, i, st.got, st.errs), map[bool]string{false: "sequence-duplicate", true: "sequence-duplicate/conflict-detection-off"}[x.j.Bool("no_conflict_detection", false)]
 					}
 					seen[v] = i
 				}
